@@ -15,7 +15,7 @@ def load_known():
     if os.path.isfile(KNOWN):
         for line in open(KNOWN):
             line = line.strip()
-            if not line or line.startswith("#"):
+            if not line or line.startswith("#") or line.startswith("fixed:"):
                 continue
             out.append(json.loads(line))
     return out
